@@ -25,6 +25,7 @@ RULE = (
     "corpus chart. Each hittable() query and each timed note is one evaluation. Non-trivial = at least one unhittable "
     "note (strong label: an unhittable tap with player != 0 or a keysound index); distinct = distinct case JSON"
 )
+RULE += " " + "Added after the seeding rounds: the same source kinds, version / number spellings and absent offsets as C11; part 'unaligned-warp-lengths': warp lengths that are not whole ticks (down to 0.001 beat), every tick judged except the one the exact and the tick-rounded end disagree about, exact half-tick ties avoided."
 ASSUMPTIONS = [
     "exact rational model in vf/model_timing.py; note grid model in vf/gen_notes.py",
     "the input order of notes is the order of the note data text",
